@@ -12,7 +12,7 @@ import traceback
 import scratch
 from scratch import Undecided, VERIF
 
-KANI_PROPS = ["C01", "C02", "C03", "C04", "C05", "C06", "C07", "C08", "C09", "C14", "C16", "C19"]
+KANI_PROPS = ["C01", "C02", "C03", "C04", "C05", "C06", "C07", "C08", "C09", "C12", "C14", "C16", "C17", "C18", "C19"]
 VERUS_PROPS = ["C04", "C05", "C07", "C08", "C09", "C12", "C14", "C16", "C17", "C18"]
 CLAIMED = ["C01", "C02", "C03", "C04", "C05", "C06", "C07", "C08", "C09", "C12", "C14", "C16", "C17", "C18", "C19"]
 
@@ -218,15 +218,6 @@ def select_units(kb, pid, tier, seed, rep):
             continue
         if kani_engine.unit_serves(u, pid):
             sel.append(n)
-    if pid == "C09" and tier == "quick":
-        # C09 is the union of the totality clauses of every unit; the quick tier runs every class-P/Z unit and a
-        # seed-rotated third of the 1 MB-memory units, the thorough tier all of them.
-        m = sorted(n for n in sel if kb.units[n].klass in ("M", "S"))
-        rnd = random.Random(seed)
-        rnd.shuffle(m)
-        drop = set(m[len(m) // 3:])
-        rep.notes.append(f"quick tier: {len(m) - len(drop)} of {len(m)} memory-class units selected by seed; all run in the thorough tier and under their own properties' quick tier")
-        sel = [n for n in sel if n not in drop]
     if pid == "C04" and tier == "quick":
         # the frame clause (only m, m+1 written) of the ~80 memory-operand productions is discharged under C01/C02/C05
         # in their quick tier; C04's quick tier keeps its primary units, the thorough tier adds those frame clauses
@@ -247,6 +238,9 @@ def evaluate_kani(kb, sel, res, rep, pid, log, root):
         u = kb.units[n]
         r = res.get(n)
         backend = {"P": "cbmc-cadical", "M": "cbmc-smt2-z3(arrays)", "S": "cbmc-cadical+arrays-uf", "Z": "cbmc-smt2-z3"}[u.klass]
+        actual = getattr(r, "solver", None)
+        if actual:
+            backend = {"z3": "cbmc-smt2-z3(arrays)", "cadical-uf": "cbmc-cadical+arrays-uf", "cadical": "cbmc-cadical"}.get(actual, backend)
         rep.functions.add(u.target)
         if r is None or r.status in ("timeout", "error", "missing"):
             st = r.status if r else "missing"
